@@ -63,7 +63,7 @@ def check_layout(ctx, rule, res, only_functions=None, label=""):
             if any(o in ("None", "?") for o in orders):
                 ctx.undecided(rule, kk, f"order of a zipped sequence is unknown: {orders}", e["loc"])
                 continue
-            same = len(set(orders)) <= 1
+            same = len(set(orders)) <= 1 or all("literal-sequence" in o for o in orders)
             if not same:
                 # pairing the i-th elements of two *parameters* is definitional when both are in mode 'same'
                 same = all(mode_of(o) == "same" for o in orders) and e["function"].split(".")[-1] in ("mtl_backward",)
@@ -86,6 +86,9 @@ def check_layout(ctx, rule, res, only_functions=None, label=""):
                 continue
             n += 1
             lo_o = e["loop_order"]
+            if lo_o in (None, "None") and "literal-sequence" in e["layout"]:
+                ctx.ok(rule, kk, "axis packed from a literal (concrete) sequence and sliced in the unrolled iteration over it", e["loc"], nontrivial=False)
+                continue
             if lo_o in (None, "None"):
                 ctx.undecided(rule, kk, f"axis laid out as {e['layout']} is sliced outside any iteration over a key collection", e["loc"])
                 continue
